@@ -3,7 +3,7 @@
 import glob, json, os
 ROOT = os.path.dirname(os.path.dirname(os.path.abspath(__file__)))
 rows = []
-for d in sorted(glob.glob(os.path.join(ROOT, "seeded", "*_m*"))):
+for d in sorted(glob.glob(os.path.join(ROOT, "seeded", "*m[0-9]"))):
     mp = os.path.join(d, "meta.json")
     if not os.path.exists(mp):
         continue
